@@ -310,8 +310,29 @@ def caseLine (op0 : String) (t : List String) (ptoks : List String) : String :=
 
 end CgiDrv
 
+/-- "h2data <cl> <body> <frames len.pad.end,...> <segmentation>" -/
+def h2dataLine (cl body frames : String) : String :=
+  match cl.toInt?, CgiDrv.bodyOf body with
+  | some cl, some bodyBytes =>
+    let specs := (frames.splitOn ",").map fun f => (f.splitOn ".").map String.toInt?
+    let rec build : List (List (Option Int)) → Bytes → List DataFrame → Option (List DataFrame)
+      | [], _, acc => some acc.reverse
+      | [some dl, some pad, some e] :: rest, b, acc =>
+        let n := dl.toNat
+        build rest (b.drop n) ({ payload := b.take n, pad := if pad < 0 then none else some pad.toNat,
+                                  endStream := e ≠ 0 } :: acc)
+      | _ :: _, _, _ => none
+    match build specs bodyBytes [] with
+    | none => "bad-op"
+    | some fs =>
+      let st := h2Body cl fs
+      "h2data state=" ++ (match st.state with | .open => "open" | .halfClosedRemote => "hcr" | .closed => "closed") ++
+        " len=" ++ toString st.bodyLen ++ " rst=" ++ toString st.rst ++ " goaway=0 rq=0 out=" ++ CgiDrv.fastHex st.out
+  | _, _ => "bad-op"
+
 def cgiLine (toks : List String) : String :=
   match toks with
+  | ["h2data", cl, body, frames, _seg] => h2dataLine cl body frames
   | op :: rest =>
     -- split at the "P" marker: everything after it is the parsed request
     let pre := rest.takeWhile (· ≠ "P")
